@@ -189,7 +189,7 @@ def apply(op, xs):
     if k == "tensor_split_n":
         return torch.tensor_split(x, op["n"], *a, **kw) if fn == "func" else x.tensor_split(op["n"], *a, **kw)
     if k == "tensor_split_idx":
-        idx = list(op["idx"]) if op.get("seq", "list") == "list" else tuple(op["idx"])
+        idx = list(op["idx"]) if op.get("seq", "list") == "list" else (torch.tensor(op["idx"]) if op["seq"] == "tensor" else tuple(op["idx"]))
         return torch.tensor_split(x, idx, *a, **kw) if fn == "func" else x.tensor_split(idx, *a, **kw)
     if k == "chunk":
         return torch.chunk(x, op["n"], *a, **kw) if fn == "func" else x.chunk(op["n"], *a, **kw)
@@ -319,11 +319,22 @@ def run_step(op, operands):
                             srcs[oi][i].append([j, e])
     for d, s in zip(descs, srcs):
         d["src"] = s
-    return {"tuple": is_tuple, "outs": descs}, outs
+    obs = {"tuple": is_tuple, "outs": descs}
+    # the same operation on the plain data: the typed result must have the same shape(s)
+    try:
+        pr = apply_plain(op, operands)
+        if pr is not None:
+            _, pouts = outputs_of(pr)
+            obs["plain_shapes"] = [list(o.shape) if isinstance(o, Tensor) else None for o in pouts]
+    except Exception:  # noqa
+        pass
+    return obs, outs
 
 
 def apply_plain(op, operands):
-    if op["op"] in ("iter_build", "iter_pick", "append", "to_batch", "narrow_method", "sample_grid", "copy"):
+    if op["op"] == "narrow_method":
+        return torch.ones_like(plain(operands[0])).narrow(op["dim"], op["start"], op["len"])
+    if op["op"] in ("iter_build", "iter_pick", "append", "to_batch", "sample_grid", "copy"):
         return None
     return apply(op, [torch.ones_like(plain(x)) if isinstance(x, Tensor) else x for x in operands])
 
@@ -353,6 +364,8 @@ def op_name(op):
             return "getitem-numpy-ellipsis"
         return "getitem"
     name = FAMILY.get(k, k)
+    if k == "tensor_split_idx" and op.get("seq") == "tensor":
+        name = "tensor_split-tensor-indices"
     if k in ("split", "split_list", "split_with_sizes", "tensor_split_n", "tensor_split_idx", "chunk", "unbind"):
         d = op.get("d", {"k": "none"})
         if d["k"] != "none" and d.get("v") != 0:
@@ -425,6 +438,11 @@ def oracle(op, operands, obs):
         elif op["op"] in ("copy", "iter_build", "iter_pick", "append", "to_batch", "narrow_method", "sample_grid") and obs["exc"] not in ("IndexError", "RuntimeError"):
             out.append((key("raises-" + obs["exc"]), f"raises {obs['exc']} ({obs['msg'][:80]})"))
         return out
+    ps = obs.get("plain_shapes")
+    if ps is not None and any(typed_in):
+        got = [d["shape"] if d["kind"] != "X" else None for d in obs["outs"]]
+        if got != ps:
+            out.append((key("result-shape-differs-from-plain-operation"), f"result shape(s) {got}, the same operation on the plain data gives {ps}"))
     for oi, d in enumerate(obs["outs"]):
         if d["kind"] == "X":
             continue
@@ -480,6 +498,8 @@ def oracle(op, operands, obs):
                 break
             if d["kind"] in ("F", "FI"):
                 axs = {descs_in[j].get("axes") for j, _ in typed_srcs if descs_in[j]["kind"] in ("F", "FI")}
+                if op["op"] == "append" and descs_in[0]["kind"] == "F":
+                    axs = {descs_in[0]["axes"]}       # the appended flow fields are converted to the axes of the batch
                 if axs and d["axes"] not in axs:
                     out.append((key("axes-lost"), f"flow result has axes {d['axes']} but its data comes from flow fields with axes {sorted(axs)}"))
                     break
